@@ -4,8 +4,8 @@ import numpy as np
 SPECULAR_SUBSTRATES = ["flat", "soil_wegmuller", "soil_qnh", "rough_choudhury79", "reflector"]
 
 
-def build(scene):
-    """scene dict -> (snowpack, atmosphere or None)"""
+def build(scene, atmosphere_inside=False):
+    """scene dict -> (snowpack, atmosphere or None); with atmosphere_inside the atmosphere is handed to make_snowpack"""
     from smrt import make_snowpack, make_soil
     from smrt.inputs.make_medium import make_atmosphere
     kw = dict(scene.get("micro", {}))
@@ -23,14 +23,42 @@ def build(scene):
         else:
             sub = make_soil(s["kind"], eps, s["T"], **s.get("params", {}))
     interface = scene.get("interface")
-    sp = make_snowpack(thickness=scene["thickness"], microstructure_model=scene.get("microstructure", "exponential"),
-                       density=scene["density"], temperature=scene["temperature"], substrate=sub,
-                       interface=interface, **kw)
     atm = None
     a = scene.get("atmosphere")
     if a is not None:
         atm = make_atmosphere("simple_isotropic_atmosphere", tb_down=a["tb_down"], tb_up=a["tb_up"], transmittance=a["trans"])
+    if atmosphere_inside and atm is not None:
+        kw["atmosphere"] = atm
+    sp = make_snowpack(thickness=scene["thickness"], microstructure_model=scene.get("microstructure", "exponential"),
+                       density=scene["density"], temperature=scene["temperature"], substrate=sub,
+                       interface=interface, **kw)
     return sp, atm
+
+
+def medium(scene):
+    """the whole medium (atmosphere + snowpack + substrate) assembled in one of the equivalent orders the API offers, chosen by
+    scene["assembly"]: 0 atm + make_snowpack(substrate=), 1 (atm + snowpack) + substrate, 2 make_snowpack(substrate=, atmosphere=),
+    3 ((atm + top layer) + other layers) + substrate"""
+    how = int(scene.get("assembly", 0))
+    sp, atm = build(scene)
+    sub = sp.substrate
+    if how == 0 or (atm is None and sub is None):
+        return (atm + sp) if atm is not None else sp
+    if how == 2:
+        return build(scene, atmosphere_inside=True)[0]
+    bare = build(dict(scene, substrate=None))[0]
+    if how == 3 and len(scene["thickness"]) >= 2:
+        def part(sl):
+            d = dict(scene, substrate=None)
+            for k in ("thickness", "density", "temperature"):
+                d[k] = scene[k][sl]
+            d["micro"] = {k: (v[sl] if isinstance(v, list) else v) for k, v in scene.get("micro", {}).items()}
+            return build(d)[0]
+        top, rest = part(slice(0, 1)), part(slice(1, None))
+        bare = ((atm + top) if atm is not None else top) + rest
+    elif atm is not None:
+        bare = atm + bare
+    return (bare + sub) if sub is not None else bare
 
 
 def make_reflector(s):
